@@ -254,6 +254,27 @@ def _unroll(unit, item, spec, body, applied):
             hdr = body[kw.end():offs[ordn]]
             m = re.fullmatch(r'\s*(\w+)\s+in\s+(.+?)\s*\.\.(=?)\s*(.+?)\s*', hdr, re.S)
             if not m:
+                # R18b: `for v in NAME` over a local array of integer literals `let NAME = [l0, l1, ..];`
+                ma = re.fullmatch(r'\s*(\w+)\s+in\s+(\w+)\s*', hdr)
+                if ma:
+                    arr = re.search(r'\blet\s+' + re.escape(ma.group(2)) + r'\s*(?::[^=;]*)?=\s*\[([\s\d_,xa-fA-F]*)\]\s*;', body[:kw.start()])
+                    if arr:
+                        lits = [t_.strip() for t_ in arr.group(1).split(',') if t_.strip()]
+                        close = s.match_close(offs[ordn])
+                        inner = body[offs[ordn] + 1:close]
+                        si = Src("<i>", inner)
+                        for bm in re.finditer(r'\b(break|continue|return)\b', inner):
+                            if si.mask[bm.start()]:
+                                raise Unsupported(f"{spec.name}: loop #{ordn} contains {bm.group(1)}; cannot unroll")
+                        ty = spec.unroll_ty.get(ordn) if isinstance(spec.unroll_ty, dict) else None
+                        tys = f": {ty}" if ty else ""
+                        copies = "".join(f"{{ let {ma.group(1)}{tys} = {l_}; {inner} }}\n" for l_ in lits)
+                        body = body[:kw.start()] + copies + body[close + 1:]
+                        applied.append(("R18b", f"for {ma.group(1)} in {ma.group(2)} (array of {len(lits)} literals)", f"unrolled x{len(lits)}"))
+                        done = False
+                        if which != "all":
+                            which = [w for w in which if w != ordn]
+                        break
                 continue
             var, lo_t, incl, hi_t = m.groups()
             lo, hi = _const_int(unit, lo_t), _const_int(unit, hi_t)
